@@ -126,6 +126,54 @@ fn drive(ex: &mut Exec, w: &Shared, q: u64, done: &dyn Fn() -> bool) {
     ex.run();
 }
 
+/// `close=<code the peer sees (first close)>x<number of close calls>`
+fn closes(g: &World) -> String {
+    let n = g.log.iter().filter(|l| l.starts_with("close ")).count();
+    match &g.closed {
+        Some((c, _)) => format!("close={}x{}", c, n),
+        None => "close=-".to_string(),
+    }
+}
+
+/// NAME=V,... in call order
+fn parse_calls(s: &str) -> Vec<(String, u64)> {
+    if s == "-" {
+        return vec![];
+    }
+    s.split(',')
+        .map(|p| {
+            let mut it = p.split('=');
+            (it.next().unwrap().to_string(), it.next().unwrap().parse().unwrap())
+        })
+        .collect()
+}
+
+fn client_calls(b: &mut h3::client::Builder, calls: &[(String, u64)]) {
+    for (n, v) in calls {
+        match n.as_str() {
+            "mfs" => b.max_field_section_size(*v),
+            "grease" => b.send_grease(*v != 0),
+            "ec" => b.enable_extended_connect(*v != 0),
+            "dg" => b.enable_datagram(*v != 0),
+            other => panic!("client builder has no setter {}", other),
+        };
+    }
+}
+
+fn server_calls(b: &mut h3::server::Builder, calls: &[(String, u64)]) {
+    for (n, v) in calls {
+        match n.as_str() {
+            "mfs" => b.max_field_section_size(*v),
+            "grease" => b.send_grease(*v != 0),
+            "wt" => b.enable_webtransport(*v != 0),
+            "ec" => b.enable_extended_connect(*v != 0),
+            "dg" => b.enable_datagram(*v != 0),
+            "wtmax" => b.max_webtransport_sessions(*v),
+            other => panic!("server builder has no setter {}", other),
+        };
+    }
+}
+
 fn main() {
     run_lines(|ws| match ws {
         ["st.ins", ps] => {
@@ -198,26 +246,18 @@ fn main() {
             }
         }
         ["dflt"] => format!("ok {}", applied(&SharedState::default())),
-        ["cfg", role, grease, mfs, wt, ec, dg, wtmax, _g, q] => {
-            let grease = *grease == "1";
-            let mfs: u64 = mfs.parse().unwrap();
-            let wtmax: u64 = wtmax.parse().unwrap();
-            let (wt, ec, dg) = (*wt == "1", *ec == "1", *dg == "1");
+        ["cfg", role, calls, _g, q] => {
             let q: u64 = q.parse().unwrap();
+            let calls = parse_calls(calls);
             let w = World::new(side_of(role), 100, 100, if q == 0 { None } else { Some(0) });
             let mut ex = Exec::new();
             let res: Rc<RefCell<Option<String>>> = Rc::new(RefCell::new(None));
             let (w2, res2, client) = (w.clone(), res.clone(), *role == "c");
             ex.spawn(async move {
                 if client {
-                    let r = h3::client::builder()
-                        .max_field_section_size(mfs)
-                        .send_grease(grease)
-                        .enable_datagram(dg)
-                        .enable_extended_connect(ec)
-                        .build::<_, _, Bytes>(SimConn { world: w2 })
-                        .await;
-                    match r {
+                    let mut b = h3::client::builder();
+                    client_calls(&mut b, &calls);
+                    match b.build::<_, _, Bytes>(SimConn { world: w2 }).await {
                         Ok(_keep) => {
                             *res2.borrow_mut() = Some("ok".into());
                             std::future::pending::<()>().await;
@@ -225,16 +265,9 @@ fn main() {
                         Err(e) => *res2.borrow_mut() = Some(format!("err {}", code_of_conn_err(&e))),
                     }
                 } else {
-                    let r = h3::server::builder()
-                        .max_field_section_size(mfs)
-                        .send_grease(grease)
-                        .enable_webtransport(wt)
-                        .enable_extended_connect(ec)
-                        .enable_datagram(dg)
-                        .max_webtransport_sessions(wtmax)
-                        .build::<_, Bytes>(SimConn { world: w2 })
-                        .await;
-                    match r {
+                    let mut b = h3::server::builder();
+                    server_calls(&mut b, &calls);
+                    match b.build::<_, Bytes>(SimConn { world: w2 }).await {
                         Ok(_keep) => {
                             *res2.borrow_mut() = Some("ok".into());
                             std::future::pending::<()>().await;
@@ -251,6 +284,9 @@ fn main() {
                 None => "pending".into(),
                 Some(s) if s == "ok" => {
                     let g = w.lock().unwrap();
+                    if g.closed.is_some() {
+                        return format!("ok-but-closed {}", closes(&g));
+                    }
                     // the control stream is the locally opened stream whose first byte is the CONTROL stream type
                     let ctl: Vec<Vec<u8>> = g
                         .local_streams()
@@ -264,13 +300,15 @@ fn main() {
                         format!("ok control-streams={}", ctl.len())
                     }
                 }
-                Some(s) => s,
+                Some(s) => format!("{} {}", s, closes(&w.lock().unwrap())),
             }
         }
-        ["rx", role, form, payload, chunk] => {
+        ["rx", role, calls, form, payload, tail, chunk] => {
             let p = unhex(payload);
+            let tail = unhex(tail);
             let chunk: usize = chunk.parse().unwrap();
             let client = *role == "c";
+            let calls = parse_calls(calls);
             let w = World::new(side_of(role), 100, 100, None);
             let mut ex = Exec::new();
             let res: Rc<RefCell<Option<String>>> = Rc::new(RefCell::new(None));
@@ -278,16 +316,22 @@ fn main() {
             let (w2, res2, shared2) = (w.clone(), res.clone(), shared.clone());
             ex.spawn(async move {
                 if client {
-                    match h3::client::builder().send_grease(false).build::<_, _, Bytes>(SimConn { world: w2 }).await {
+                    let mut b = h3::client::builder();
+                    client_calls(&mut b, &calls);
+                    match b.build::<_, _, Bytes>(SimConn { world: w2 }).await {
                         Ok((mut conn, _send)) => {
                             *shared2.borrow_mut() = Some(conn.inner.shared.clone());
                             let e = futures_util::future::poll_fn(|cx| conn.poll_close(cx)).await;
                             *res2.borrow_mut() = Some(format!("err {}", code_of_conn_err(&e)));
+                            // keep the connection alive: dropping it is not part of the observation
+                            std::future::pending::<()>().await;
                         }
                         Err(e) => *res2.borrow_mut() = Some(format!("build-err {}", code_of_conn_err(&e))),
                     }
                 } else {
-                    match h3::server::builder().send_grease(false).build::<_, Bytes>(SimConn { world: w2 }).await {
+                    let mut b = h3::server::builder();
+                    server_calls(&mut b, &calls);
+                    match b.build::<_, Bytes>(SimConn { world: w2 }).await {
                         Ok(mut conn) => {
                             *shared2.borrow_mut() = Some(conn.inner.shared.clone());
                             match conn.accept().await {
@@ -295,6 +339,7 @@ fn main() {
                                 Ok(None) => *res2.borrow_mut() = Some("accept-none".into()),
                                 Err(e) => *res2.borrow_mut() = Some(format!("err {}", code_of_conn_err(&e))),
                             }
+                            std::future::pending::<()>().await;
                         }
                         Err(e) => *res2.borrow_mut() = Some(format!("build-err {}", code_of_conn_err(&e))),
                     }
@@ -309,10 +354,11 @@ fn main() {
             if before != applied(&SharedState::default()) {
                 return format!("defaults-not-in-force {}", before);
             }
-            // the peer's control stream: type 00, then the SETTINGS frame
+            // the peer's control stream: type 00, then the SETTINGS frame, then TAIL
             let id: u64 = if client { 3 } else { 2 };
             let mut bytes = vec![0u8];
             bytes.extend(settings_frame(form.parse().unwrap(), &p));
+            bytes.extend_from_slice(&tail);
             apply_event(&w, &format!("U{}", id));
             ex.run();
             let step = if chunk == 0 { bytes.len() } else { chunk };
@@ -321,12 +367,18 @@ fn main() {
                 ex.run();
             }
             let r = res.borrow().clone();
+            let g = w.lock().unwrap();
             match r {
-                Some(s) => s,
-                None => match shared.borrow().as_ref() {
-                    Some(s) => format!("ok {}", applied(&**s)),
-                    None => "no-conn".into(),
-                },
+                Some(s) => format!("{} {}", s, closes(&g)),
+                None => {
+                    if g.closed.is_some() {
+                        return format!("ok-but-closed {}", closes(&g));
+                    }
+                    match shared.borrow().as_ref() {
+                        Some(s) => format!("ok {}", applied(&**s)),
+                        None => "no-conn".into(),
+                    }
+                }
             }
         }
         _ => "driver-error unknown-case".into(),
